@@ -486,12 +486,12 @@ func firstIteCond(t *Term) *Term {
 }
 
 func assume(t *Term, c *Term, val bool) *Term {
-	cs := c.String()
+	cs := c.Key()
 	return t.subst(func(x *Term) *Term {
 		if x.Op == "loop" {
 			return x
 		}
-		if x.String() == cs {
+		if x.Key() == cs {
 			return cBool(val)
 		}
 		return nil
